@@ -23,6 +23,7 @@ from pyvc.engine import (Contract, Case, LoopSpec, ObjShape, FunShape, ZV, PObj,
                          box, unbox, fresh, empty_list, ShapeMismatch, zbool, fresh_name, empty_arr)
 from contracts.guesser_core import *   # noqa
 from contracts import guesser_core as gc
+from contracts import guesser_lemmas as _gl_hooks   # noqa: F401 (installs lemma hooks)
 
 OUT = TSeq(TStr)
 SEQ = OUT.sort()
@@ -146,10 +147,9 @@ def wf_expand(G, cur, pt):
 def read_should_exit(eng, st, obj):
     b = z3.Bool(fresh_name('should_exit_read'))
     quit_ = st.env['$quit'].term
-    last = st.env.get('$exit_seen')
+    last = st.env['$exit_seen']
     st.assume(z3.Implies(b, quit_))
-    if last is not None:
-        st.assume(z3.Implies(last.term, b))
+    st.assume(z3.Implies(last.term, b))
     st.env['$exit_seen'] = ZV(TBool, b)
     return ZV(TBool, b)
 
@@ -262,7 +262,10 @@ def _ogg_ensures(c):
     return [
         ('prefix', z3.And(0 <= res, res <= want, out1 == z3.Concat(out0, take(res, R)))),
         ('complete_unless_quit', z3.Implies(z3.Not(c.args['$quit'].term), full)),
-        ('early_stop_is_a_saved_quit', z3.Implies(res < want, z3.And(c.args['$quit'].term, c.after['self'].fields['omen_exit'].term))),
+        ('early_stop_is_a_saved_quit', z3.Implies(res < want, z3.And(c.args['$quit'].term, c.after['self'].fields['omen_exit'].term,
+                                                                     c.after['$exit_seen'].term, res >= 1))),
+        ('exit_seen_monotone', z3.Implies(c.args['$exit_seen'].term, c.after['$exit_seen'].term)),
+        ('exit_only_on_quit', z3.Implies(c.after['$exit_seen'].term, z3.Or(c.args['$exit_seen'].term, c.args['$quit'].term))),
         ('cursor', mc1.fields['pos'].term == mc0.fields['pos'].term + res),
         ('guess_num', c.after['self'].fields['omen_guess_num'].term >= c.self.fields['omen_guess_num'].term),
     ]
@@ -285,7 +288,7 @@ def _ogg_inv(L):
                                L.limit.term == lim0)),
         ('omen_exit_kept', L.self.fields['omen_exit'].term == L.entry.args['self'].fields['omen_exit'].term),
         ('guess_num_mono', L.self.fields['omen_guess_num'].term >= L.entry.args['self'].fields['omen_guess_num'].term),
-        ('no_exit_seen', z3.Not(L.env['$exit_seen'].term) if '$exit_seen' in L.env else z3.BoolVal(True)),
+        ('exit_seen_kept', L.env['$exit_seen'].term == L.entry.args['$exit_seen'].term),
     ]
     gsh = TOpt(TStr)
     g = box(guess, gsh) if not isinstance(guess, PNone) else gsh.none()
@@ -300,7 +303,7 @@ def _ogg_inv(L):
 
 _ogg = Contract(
     MOD + ':PcfgGrammar.omen_generate_guesses',
-    params={'self': GRAMMAR_OBJ, 'markov_cracker': MC_OBJ, 'limit': TOpt(TInt), '$out': OUT, '$quit': TBool},
+    params={'self': GRAMMAR_OBJ, 'markov_cracker': MC_OBJ, 'limit': TOpt(TInt), '$out': OUT, '$quit': TBool, '$exit_seen': TBool},
     requires=_ogg_requires,
     result=TInt,
     ensures=_ogg_ensures,
@@ -376,6 +379,10 @@ def _rg_ensures(c):
         ('prefix', z3.And(0 <= res, res <= want, out1 == z3.Concat(out0, take(res, E)))),
         ('exact', z3.Implies(z3.Or(z3.Not(c.args['$quit'].term), category(c.pt.term) != ord('M')),
                              stream_post(out0, out1, res, E, c.limit.term))),
+        ('early_stop', z3.Implies(res < want, z3.And(c.args['$quit'].term, c.after['$exit_seen'].term, res >= 1,
+                                                     c.after['self'].fields['omen_exit'].term, category(c.pt.term) == ord('M')))),
+        ('exit_seen_monotone', z3.Implies(c.args['$exit_seen'].term, c.after['$exit_seen'].term)),
+        ('exit_only_on_quit', z3.Implies(c.after['$exit_seen'].term, z3.Or(c.args['$exit_seen'].term, c.args['$quit'].term))),
     ]
 
 
@@ -395,6 +402,8 @@ def _rg_inv_common(L, j):
                                z3.And(z3.Not(sh.is_none(L.limit.term)), sh.val(L.limit.term) == lim_val(lim0) - n,
                                       sh.val(L.limit.term) >= 1),
                                L.limit.term == lim0)),
+        ('exit_seen_monotone', z3.Implies(e.args['$exit_seen'].term, L.env['$exit_seen'].term)),
+        ('exit_only_on_quit', z3.Implies(L.env['$exit_seen'].term, z3.Or(e.args['$exit_seen'].term, e.args['$quit'].term))),
     ]
 
 
@@ -427,7 +436,7 @@ def _rg_inv_mask(L):
 
 _rg = Contract(
     MOD + ':PcfgGrammar._recursive_guesses',
-    params={'self': GRAMMAR_OBJ, 'cur_guess': TStr, 'pt': PT, 'limit': TOpt(TInt), '$out': OUT, '$quit': TBool},
+    params={'self': GRAMMAR_OBJ, 'cur_guess': TStr, 'pt': PT, 'limit': TOpt(TInt), '$out': OUT, '$quit': TBool, '$exit_seen': TBool},
     requires=_rg_requires,
     result=TInt,
     ensures=_rg_ensures,
@@ -462,12 +471,16 @@ def _cg_ensures(c):
         ('prefix', z3.And(0 <= res, res <= want, out1 == z3.Concat(out0, take(res, E)))),
         ('exact', z3.Implies(z3.Or(z3.Not(c.args['$quit'].term), category(c.pt.term) != ord('M')),
                              stream_post(out0, out1, res, E, c.limit.term))),
+        ('early_stop', z3.Implies(res < want, z3.And(c.args['$quit'].term, c.after['$exit_seen'].term, res >= 1,
+                                                     c.after['self'].fields['omen_exit'].term, category(c.pt.term) == ord('M')))),
+        ('exit_seen_monotone', z3.Implies(c.args['$exit_seen'].term, c.after['$exit_seen'].term)),
+        ('exit_only_on_quit', z3.Implies(c.after['$exit_seen'].term, z3.Or(c.args['$exit_seen'].term, c.args['$quit'].term))),
     ]
 
 
 _cg = Contract(
     MOD + ':PcfgGrammar.create_guesses',
-    params={'self': GRAMMAR_OBJ, 'pt': PT, 'is_honeyword': TBool, 'limit': TOpt(TInt), '$out': OUT, '$quit': TBool},
+    params={'self': GRAMMAR_OBJ, 'pt': PT, 'is_honeyword': TBool, 'limit': TOpt(TInt), '$out': OUT, '$quit': TBool, '$exit_seen': TBool},
     requires=_cg_requires,
     result=TInt,
     ensures=_cg_ensures,
